@@ -90,7 +90,10 @@ Theorem C16_cli_source_only_given_flags :
 Proof. exact cli_source_only_given_flags. Qed.
 Print Assumptions C16_cli_source_only_given_flags.
 
-(* a value of the wrong type is rejected, not replaced by a lower source or the default *)
+(* a value of the wrong type is rejected, not replaced by a lower source or the default.
+   The next two statements are about the TEMPLATE (settings.get) and carry the side condition
+   known_exception = false; the two exceptions are closed by the checks main() makes itself, so
+   that at the level of main() no exception is left: C16_wrong_type_rejected_by_main below *)
 Theorem C16_wrong_type_rejected :
   forall cwd rc ty v src, yval_has_type ty v = false -> known_exception ty v = false ->
     convert cwd rc ty (Some (v, src)) = CTypeError.
@@ -133,12 +136,74 @@ Theorem C16_exclude_accepted_iff_all_sources_ok :
 Proof. exact exclude_accepted_iff_all_sources_ok. Qed.
 Print Assumptions C16_exclude_accepted_iff_all_sources_ok.
 
-(* (2) known finding F27: a mapping given for rst.headers is accepted, its keys are used *)
+(* (2) finding F27, about the TEMPLATE ALONE: StrSeq accepts a mapping given for rst.headers and
+   would use its keys (behaviour of the confuse library, kept as it is in the model of the template).
+   This is no longer a statement about a run of cminx: since the repair of F27 main() itself rejects
+   the mapping right after settings.get -- C16_headers_mapping_rejected_by_main below *)
 Theorem C16_headers_mapping_is_accepted_refuted :
   forall cwd rc, exists ks src, yval_has_type TStrSeq (YMap ks) = false
                                 /\ convert cwd rc TStrSeq (Some (YMap ks, src)) = COk (CStrs ks).
 Proof. exact C16_headers_mapping_refuted. Qed.
 Print Assumptions C16_headers_mapping_is_accepted_refuted.
+
+(* ... main() checks the raw winning value of rst.headers (view.get() without a template) and raises
+   ConfigTypeError when it is a mapping.  main_accepts = settings.get(template) succeeds, and the
+   rst.headers check passes, and the exclude-filter loop passes (the three places where main() can
+   reject a configuration, in source order) *)
+Theorem C16_main_accepts_spec :
+  forall cwd stack,
+    main_accepts cwd stack = true
+    <-> settings_of cwd stack template <> None /\ headers_ok stack = true
+        /\ all_contents stack (s"input.exclude_filters") <> None.
+Proof. exact main_accepts_spec. Qed.
+Print Assumptions C16_main_accepts_spec.
+
+Theorem C16_headers_mapping_rejected_by_main :
+  forall cwd pre src post ks,
+    Forall (unset (s"rst.headers")) pre ->
+    assoc (s"rst.headers") (src_vals src) = Some (YMap ks) ->
+    headers_ok (pre ++ src :: post) = false /\ main_accepts cwd (pre ++ src :: post) = false.
+Proof. exact headers_mapping_rejected_by_main. Qed.
+Print Assumptions C16_headers_mapping_rejected_by_main.
+
+(* the new check rejects nothing else: with a list, a string, any non-mapping value or no value for
+   rst.headers, main() accepts exactly what the template and the exclude loop accept *)
+Theorem C16_headers_list_or_string_not_affected :
+  forall stack,
+    match resolve stack (s"rst.headers") with
+    | Some (v, _) => is_ymap v = false
+    | None => True
+    end ->
+    headers_ok stack = true
+    /\ forall cwd, main_accepts cwd stack
+                   = match settings_of cwd stack template,
+                           all_contents stack (s"input.exclude_filters") with
+                     | Some _, Some _ => true
+                     | _, _ => false
+                     end.
+Proof. exact headers_list_or_string_not_affected. Qed.
+Print Assumptions C16_headers_list_or_string_not_affected.
+
+(* the summary, without side condition: NO value of the wrong type, as the winning value of ANY
+   option of the current template, is accepted by main() (F15 and F27 are both closed) *)
+Theorem C16_wrong_type_rejected_by_main :
+  forall cwd stack k ty v src,
+    In (k, ty) template -> yval_has_type ty v = false -> resolve stack k = Some (v, src) ->
+    main_accepts cwd stack = false.
+Proof. exact wrong_type_rejected_by_main. Qed.
+Print Assumptions C16_wrong_type_rejected_by_main.
+
+Theorem C16_main_total_on_well_typed :
+  forall cwd upper,
+    forallb (src_well_typed template) upper = true ->
+    forallb (excl_src_ok (s"input.exclude_filters")) upper = true ->
+    settings_of cwd (upper ++ [defaults_src]) template <> None
+    /\ headers_ok (upper ++ [defaults_src]) = true
+    /\ all_contents (upper ++ [defaults_src]) (s"input.exclude_filters")
+       = Some (expected_union (s"input.exclude_filters") (upper ++ [defaults_src]))
+    /\ main_accepts cwd (upper ++ [defaults_src]) = true.
+Proof. exact main_total_on_well_typed. Qed.
+Print Assumptions C16_main_total_on_well_typed.
 
 Theorem C16_well_typed_settings_accepted :
   forall cwd upper, forallb (src_well_typed template) upper = true ->
@@ -165,8 +230,8 @@ Proof. exact output_dir_resolution. Qed.
 Print Assumptions C16_output_dir_resolution.
 
 (* pymain2coq: the control flow of main() as regenerated from src/cminx/__init__.py on every run
-   (argument parsing, stacking of the sources, template validation, the exclude-filter loop, the
-   loop over the inputs) equals the specification model_main, for every environment, document
+   (argument parsing, stacking of the sources, template validation, the rst.headers check, the
+   exclude-filter loop, the loop over the inputs) equals the specification model_main, for every environment, document
    function and argument vector. *)
 Theorem C16_main_matches_source :
   forall env document toks, py_run (main env document toks) = model_main env document toks.
@@ -193,6 +258,41 @@ Theorem C16_wrong_exclude_type_document_not_called : forall env document documen
   /\ acts_of (py_run (main env document toks)) = [].
 Proof. exact wrong_exclude_type_document_not_called. Qed.
 Print Assumptions C16_wrong_exclude_type_document_not_called.
+
+(* the rst.headers check as translated from the source: a mapping as the winning value -> main()
+   raises, nothing is documented *)
+Theorem C16_headers_mapping_nothing_documented : forall env document toks p stack ks src,
+  parse_args cli_table toks = Some p ->
+  consulted env p = Some stack ->
+  resolve stack (s"rst.headers") = Some (YMap ks, src) ->
+  py_run (main env document toks)
+  = Raised (match settings_of (env_cwd env) stack template with
+            | None => ExcConfig
+            | Some _ => config_type_error
+            end) [].
+Proof. exact headers_mapping_nothing_documented. Qed.
+Print Assumptions C16_headers_mapping_nothing_documented.
+
+(* main_accepts is exactly the condition under which the translated main() raises nothing *)
+Theorem C16_main_raises_iff_not_accepted : forall env document toks p stack,
+  parse_args cli_table toks = Some p ->
+  consulted env p = Some stack ->
+  (main_accepts (env_cwd env) stack = false <-> exists e, py_run (main env document toks) = Raised e [])
+  /\ (main_accepts (env_cwd env) stack = true ->
+      exists st ex, settings_of (env_cwd env) stack template = Some st /\ exclude_strs stack = Some ex
+        /\ py_run (main env document toks)
+           = finish (run_inputs (map (fun f => document f (settings_object st ex)) (p_positional p)))).
+Proof. exact main_raises_iff_not_accepted. Qed.
+Print Assumptions C16_main_raises_iff_not_accepted.
+
+Theorem C16_wrong_type_nothing_documented : forall env document toks p stack k ty v src,
+  parse_args cli_table toks = Some p ->
+  consulted env p = Some stack ->
+  In (k, ty) template -> yval_has_type ty v = false -> resolve stack k = Some (v, src) ->
+  exists e, py_run (main env document toks) = Raised e []
+            /\ In e [ExcConfig; config_type_error].
+Proof. exact wrong_type_nothing_documented. Qed.
+Print Assumptions C16_wrong_type_nothing_documented.
 
 Theorem C16_main_exceptions : forall env document toks e acts,
   py_run (main env document toks) = Raised e acts ->
